@@ -537,7 +537,8 @@ def special_C14(tier, seed, harness, work):
             ("soak GOGC=1", ["gcarm", "soak", secs, str(seed + 1)], {"GOGC": "1"}),
             ("soak GOGC=10 GOMAXPROCS=2", ["gcarm", "soak", secs, str(seed + 2)], {"GOGC": "10", "GOMAXPROCS": "2"}),
             ("retain (finalizers run after removal / reset)", ["gcarm", "retain"], {}),
-            ("escape (non-escaping literals at call sites)", ["gcarm", "escape"], {})]
+            ("escape (non-escaping literals at call sites)", ["gcarm", "escape"], {}),
+            ("alias (value sources pointing into the world's own storage, at capacity boundaries)", ["gcarm", "alias"], {})]
     for name, args, env in runs:
         try:
             p = subprocess.run([harness] + args, stdout=subprocess.PIPE, stderr=subprocess.STDOUT, timeout=600,
